@@ -1,9 +1,10 @@
 """C05 — big integers compute exactly like mathematical integers.
 
 Decided: constructor bit coverage (A-BITS), sign dispatch truth tables of add/sub/mul/div/partial_cmp/eq/neg/minus
-(A-PATH), normalisation, operator impls delegate with operands in order, rem = a - (a/b)*b, Euclid step of gcd.
-NOT decided (no sound static argument in reach): carry/borrow chains of add_core/sub_core, mult_core, div_core,
-less_core — limb-level arithmetic."""
+(decision tables over path-precise origins), normalisation, operator impls delegate with operands in order,
+rem = a - (a/b)*b, Euclid step of gcd, the per-iteration conservation laws of the carry, borrow and
+partial-product loops (A-LIN), the greedy bit search of div_core and the magnitude comparison of less_core.
+NOT decided: the induction from the per-iteration laws to the whole-number statement (argued in DESIGN.md)."""
 from .cfg import CFG
 from .facts import callee_name
 from .gea import Seq, Star, Alt, Opt
@@ -24,13 +25,19 @@ EXPLANATION = (
     "operand order, when the result is negated, zero stays non-negative); (NORM) every public arithmetic result "
     "passes through the normalising constructor; (OPS) each operator impl is a single call of its namesake with "
     "(self, rhs) in order and each assigning variant stores op(&*self, rhs) back; (REM) rem(a,b) = a - (a/b)*b; "
-    "(GCD) one Euclid step per iteration. The magnitude routines themselves (carry/borrow chains, schoolbook "
-    "multiplication, bitwise division, magnitude comparison) are NOT decided: their correctness depends on limb "
-    "values, which no static argument built here can bound."
+    "(GCD) one Euclid step per iteration; (LIMBS) for every loop of add_core, sub_core and mult_core each path of one "
+    "iteration is evaluated over linear forms of the limbs with interval-checked casts and must satisfy the "
+    "conservation law of that loop (digit + carry*2^32 = lhs[i] + rhs[i] + carry_in; the borrow form; every "
+    "accumulator cell reduced below 2^32 before the truncating conversion), results are normalised and digits stay "
+    "below 2^32; (DIVLESS) div_core tries every bit of every quotient limb from the top and keeps a bit exactly when "
+    "dividend >= quotient*divisor, less_core's event language equals the definition of magnitude comparison. NOT "
+    "decided: the induction from these per-iteration laws to the whole-number statement (textbook argument, given in "
+    "DESIGN.md, not mechanised)."
 )
 ASSUMPTIONS = [
     "rustc MIR (nightly 1.97, mir-opt-level=0); unwind edges ignored",
-    "magnitude routines add_core/sub_core/mult_core/div_core/less_core are correct on magnitudes (NOT verified; limb arithmetic is out of reach of this technique)",
+    "a loop whose every iteration conserves (partial result + carry*base^i) computes the exact sum/difference/product (induction not mechanised)",
+    "casts are evaluated with the interval of their operand; an interval the analysis cannot bound fails the obligation",
     "isize is 64 bits wide (the extraction target); unsigned_abs() is std's",
 ]
 TRUSTED = ["rustc nightly MIR", "/verif/rules A-PATH/A-ORG/A-BITS", "sign tables in rules/p_c05.py (from the arithmetic of signed magnitudes)"]
